@@ -19,6 +19,8 @@ structure FieldD where
   repeated : Bool             -- a list (`IsList`)
   message : Option Bytes      -- message type name; none = scalar
   isMap : Bool := false       -- a map: repeated cardinality, but not a list
+  kind : Bytes := []          -- scalar kind by name (`string`, `int32`, ...; used by the REST model)
+  json : Bytes := []          -- JSON name
   deriving Repr, DecidableEq
 
 structure MethodD where
